@@ -37,7 +37,7 @@ def attribute(ev):
     """which property does a rejected trace event speak about"""
     e = ev.get("ev")
     if e == "Read":
-        if ev.get("how") == "cmp" and ev.get("uden", 0) != 0:
+        if ev.get("how") == "ctl" and (ev.get("uden", 0) != 0 or ev.get("edge", 0) != 0):
             return "C06"
         return "C14"
     if e == "Narrow":
